@@ -151,10 +151,10 @@ Proof.
 Qed.
 
 (* fold of the final loop of lockKeys over currentLockedKeys *)
-Definition cur_add (E : entry) (kp : list key) (c : list (key * entry)) :=
-  fold_left (fun c k => (k, E) :: delk k c) kp c.
+Definition cur_add (E : key -> entry) (kp : list key) (c : list (key * entry)) :=
+  fold_left (fun c k => (k, E k) :: delk k c) kp c.
 
-Lemma cur_add_find E kp c k : findk k (cur_add E kp c) = if memk k kp then Some E else findk k c.
+Lemma cur_add_find E kp c k : findk k (cur_add E kp c) = if memk k kp then Some (E k) else findk k c.
 Proof.
   unfold cur_add. revert c. induction kp as [|x r IH]; simpl; intros c; auto.
   rewrite IH. destruct (N.eqb_spec k x).
@@ -163,7 +163,7 @@ Proof.
     apply findk_delk_ne. congruence.
 Qed.
 
-Lemma cur_add_In E kp c p : In p (cur_add E kp c) -> snd p = E \/ In p c.
+Lemma cur_add_In E kp c p : In p (cur_add E kp c) -> snd p = E (fst p) \/ In p c.
 Proof.
   unfold cur_add. revert c. induction kp as [|x r IH]; simpl; intros c H; auto.
   apply IH in H. destruct H as [H|[H|H]]; auto.
@@ -174,7 +174,7 @@ Qed.
 Lemma cur_add_length E kp c : (length (cur_add E kp c) <= length c + length kp)%nat.
 Proof.
   unfold cur_add. revert c. induction kp as [|x r IH]; simpl; intros c; [lia|].
-  specialize (IH ((x, E) :: delk x c)). simpl in IH. pose proof (length_delk x c). lia.
+  specialize (IH ((x, E x) :: delk x c)). simpl in IH. pose proof (length_delk x c). lia.
 Qed.
 
 (* the success loop of lockKeys also takes the keys out of the previous-attempt map *)
